@@ -204,6 +204,49 @@ CONTEXTS = ["blockquote/", "doc//", "list_item/paragraph/|blockquote/", "paragra
             "doc/blockquote/paragraph/", "heading/ | list_item//", "container/paragraph/", "container//", "titled/|item//"]
 
 
+def style_rules(spec):
+    """The style parse rules as the schema author declared them: [prop, value ("" = any), mark]."""
+    out = []
+    for mname, m in spec.get("marks", {}).items():
+        for r in m.get("parseDOM", []) or []:
+            st = r.get("style")
+            if st and not r.get("getAttrs") and not r.get("context") and not r.get("clearMark"):
+                prop, _, val = st.partition("=")
+                out.append({"prop": prop, "value": val, "mark": mname})
+    return out
+
+
+STYLE_DECLS = [[("font-weight", "bold")], [("font-style", "italic")], [("font-style", "normal")], [("font-weight", "700")], [("color", "red")],
+               [("font-weight", "bold"), ("font-style", "italic")], [("color", "red"), ("font-style", "italic")], [("font-style", "oblique"), ("font-weight", "bold")],
+               [("text-decoration", "underline")], [("font-styles", "italic")], [("font", "italic")]]
+# (element that carries the style attribute, what surrounds it, the textblock type the text ends up in)
+STYLE_SHAPES = [("span", "<p>{}</p>", "paragraph"), ("span", "<h1>{}</h1>", "heading"), ("span", "<pre>{}</pre>", "code_block"), ("span", "{}", "paragraph"),
+                ("span", "<ul><li><p>{}</p></li></ul>", "paragraph"), ("b", "<p>{}</p>", "paragraph")]
+
+
+def ev_style(b, sch, decls, shape):
+    el, frame, parent = shape
+    css = "; ".join(f"{p}: {v}" for p, v in decls)
+    html = frame.format(f'<{el} style="{css}">QX</{el}>ZY')
+    res, doc = parse_html(sch, html, 3.0)
+    if res["kind"] == "skipped-after-timeouts":
+        return None
+    inside, after, found = [], [], False
+    if doc is not None:
+        def visit(node, pos, par, index):
+            nonlocal inside, after, found
+            if node.is_text and "QX" in node.text:
+                found = True
+                inside = [m.type.name for m in node.marks]
+            if node.is_text and "ZY" in node.text and "QX" not in node.text:
+                after = [m.type.name for m in node.marks]
+        doc.descendants(visit)
+    base = ["strong"] if el == "b" else []
+    return b.add({"ev": "Style", "src": html, "res": res, "out": proj.proj(doc) if doc is not None else [], "parent": parent,
+                  "decls": [{"prop": p, "value": v} for p, v in decls], "inside": inside, "tagmarks": base, "after": after,
+                  "found": found or (doc is not None and not decls)})
+
+
 def parse_ctx(expr):
     import re
     return [alt.split("/") for alt in re.split(r"\s*\|\s*", expr)]
@@ -251,6 +294,10 @@ def run(tier: str, seed: int, t0: float) -> int:
               "<li>x</li>", "<td>x</td>", "x<p>y</p>z", "<p><code>a</code></p>", "<h1><code>a</code></h1>", "<blockquote><pre><code>x</code></pre></blockquote>",
               "<ol start=\"3\"><li><p>x</p></li></ol>", "<p>a&amp;b &lt; c</p>", "<a href=\"x&quot;y\">l</a>"]:
         ev_parse(b, sch, s, "hand")
+    # style attributes: declared style rules apply to the element's content (where the parent allows the mark) and to nothing else
+    for decls in STYLE_DECLS:
+        for shape in STYLE_SHAPES:
+            ev_style(b, sch, decls, shape)
     # shaped documents beyond the token bound: a single space between an inline node that is not text and the text after it
     em_ = sch.marks["em"].create()
     img_ = sch.node("image", {"src": "s"})
@@ -260,7 +307,7 @@ def run(tier: str, seed: int, t0: float) -> int:
                  [T_("a "), img_, T_(" b "), img_], [T_("x", em_), T_(" y")]):
         ev_doc(b, sch, sch.node("doc", None, [sch.node("paragraph", None, kids)]))
         ev_doc(b, sch, sch.node("doc", None, [sch.node("heading", {"level": 2}, kids)]))
-    jobs.append(("Trace_Dom", b, "G dom[test]", {"dom": dom, "markattrs": markattrs_table(b.docs)}))
+    jobs.append(("Trace_Dom", b, "G dom[test]", {"dom": dom, "markattrs": markattrs_table(b.docs), "stylerules": style_rules(schemas.spec_of("test"))}))
     # ---- T: random bundled documents
     for name in ("basic", "test"):
         sch2, js2, prs = universe.random_docs(name, 60 if not thorough else 600, rng, size=1.3)
@@ -327,7 +374,7 @@ def run(tier: str, seed: int, t0: float) -> int:
                     case["back"] = short(e["back"])[:300]
                 if e["ev"] == "Parse":
                     case["out"] = short(e["out"])[:300]
-                api = {"Serialize": "DOMSerializer.serialize_fragment", "RoundTrip": "DOMParser.parse(serialize)", "Parse": "DOMParser.parse", "Context": "ParseContext.matches_context"}[e["ev"]]
+                api = {"Serialize": "DOMSerializer.serialize_fragment", "RoundTrip": "DOMParser.parse(serialize)", "Parse": "DOMParser.parse", "Context": "ParseContext.matches_context", "Style": "DOMParser.parse (style rules)"}[e["ev"]]
                 out.append(Violation(v[4:], api, f"{what}: {json.dumps(case)[:900]}", {"schema": bb.schema_js["name"], "event": {k2: v2 for k2, v2 in e.items() if k2 not in ("html",)},
                                                                                        "doc": bb.docs[e["di"] - 1] if "di" in e else None}, sig))
     for key, least in (("Serialize:ok", 500), ("RoundTrip:ok", 200), ("Parse:ok", 2000), ("Context:ok", 100)):
